@@ -329,7 +329,7 @@ pub fn run(args: &Args) -> i32 {
     if let Some(path) = &args.replay {
         return replay(path, report);
     }
-    let total_modules = scaled(args, args.tier.pick(5_000, 300_000));
+    let total_modules = scaled(args, args.tier.pick(25_000, 400_000));
     let per_shard = (total_modules / args.threads as u64).max(1);
     let budget = Duration::from_secs(budget_secs(args.tier, 45, 720));
     report.run_shards(46, args.threads, budget, |_i, rng, shard| {
